@@ -240,7 +240,7 @@ def project(v, events):
         cls = []
         for i, a in enumerate(pa):
             sent = hg.sent_datum(a, v["pv"][i])
-            dflt = hg.concrete(a, hg.default_of(a)) if a["mode"] == "default" else None
+            dflt = hg.concrete(a, hg.default_of(a)) if hg.has_default(a) else None
             cls.append(hg.classify(dp if is_whole(pa) else dp.get("a%d" % (i + 1)), sent, dflt))
         o["delivered"] = cls
         o["delivered_raw"] = dp
@@ -272,7 +272,7 @@ def project(v, events):
             cls = []
             for j, a in enumerate(ra):
                 sent = hg.sent_datum(a, v["rv"][j])
-                dflt = hg.concrete(a, hg.default_of(a)) if a["mode"] == "default" else None
+                dflt = hg.concrete(a, hg.default_of(a)) if hg.has_default(a) else None
                 got = res if is_whole(ra) else (res.get("r%d" % (j + 1)) if isinstance(res, dict) else None)
                 cls.append(hg.classify(got, sent, dflt))
             o["returned"] = cls
@@ -381,7 +381,7 @@ def abstract_class(a, sent, x):
     if x == sent:
         return "sent"
     d = hg.default_of(a)
-    if a["mode"] == "default" and d is not None and x == d:
+    if hg.has_default(a) and d is not None and x == d:
         return "default"
     return "other"
 
